@@ -62,4 +62,59 @@ def joinChunkOuts (chunkOuts : List J) : J := .arr chunkOuts
 /-- `doJoin`: `_chunk_defs` is the list of the chunk defs' args, in chunk order -/
 def joinChunkDefs (chunkDefs : List (List (String × J))) : J := .arr (chunkDefs.map .obj)
 
+/-! ## static projection of binding expressions (`*Exp.BindingPath`, one field) -/
+
+mutual
+/-- `e.BindingPath(f)`: array literals project element-wise, typed-map literals
+value-wise, struct literals select the member, references extend their path, a
+literal null stays null. -/
+def bindingPath1 (f : String) : Exp → Exp
+  | .lit _ => .lit .null
+  | .arr xs => .arr (bpList f xs)
+  | .map kvs => .map (bpFields f kvs)
+  | .struct kvs => (kvs.lookup f).getD (.lit .null)
+  | .self p path => .self p (path ++ [f])
+  | .ref c path => .ref c (path ++ [f])
+def bpList (f : String) : List Exp → List Exp
+  | [] => []
+  | e :: es => bindingPath1 f e :: bpList f es
+def bpFields (f : String) : List (String × Exp) → List (String × Exp)
+  | [] => []
+  | (k, e) :: es => (k, bindingPath1 f e) :: bpFields f es
+end
+
+mutual
+/-- the shape discipline the compiler enforces on a binding expression of type `t`
+(only what static projection relies on) -/
+def wt (st : StructTable) (env : Env) : Ty → Exp → Bool
+  | _, .lit j => match j with | .null => true | _ => false
+  | t, .arr xs => t.arrDim != 0 && wtList st env { t with arrDim := t.arrDim - 1 } xs
+  | t, .map kvs => t.arrDim == 0 && t.mapDim != 0 && wtFields st env ⟨t.base, 0, t.mapDim - 1⟩ kvs
+  | t, .struct _ => t.arrDim == 0 && t.mapDim == 0
+  | t, .self p path => pathTy st (env.selfTy p) path == t
+  | t, .ref c path => pathTy st (env.callTy c) path == t
+def wtList (st : StructTable) (env : Env) : Ty → List Exp → Bool
+  | _, [] => true
+  | t, e :: es => wt st env t e && wtList st env t es
+def wtFields (st : StructTable) (env : Env) : Ty → List (String × Exp) → Bool
+  | _, [] => true
+  | t, (_, e) :: es => wt st env t e && wtFields st env t es
+end
+
+/-! ## fork-index substitution on a split literal (`SplitExp.BindingPath` with a known fork index) -/
+
+/-- the binding of fork `ix` of a call mapped over a literal collection: the
+`ix`-th element expression (references keep their fork index until run time:
+that part is `elemAt` on the resolved value, see `evalCall`) -/
+def selectFork (ix : Idx) : Exp → Exp
+  | .arr xs =>
+    match ix with
+    | .i n => xs.getD n (.lit .null)
+    | _ => .lit .null
+  | .map kvs =>
+    match ix with
+    | .k s => (kvs.lookup s).getD (.lit .null)
+    | _ => .lit .null
+  | e => e
+
 end Martian.Resolver
